@@ -13,7 +13,7 @@ func init() {
 		Doc: "the context stored in each stream object and returned by each stream's Context() descends from the request's context through context-deriving calls only; streamGRPC.done is Done() of the very context stored in the stream",
 		Run: ruleCtxAncestry})
 	register(&Rule{Name: "TIMEOUT-APPLIED", Floor: 3,
-		Doc: "where the grpc-timeout header is non-empty the handler context's chain contains context.WithTimeout(_, d) with d = result of decodeTimeout of that header value",
+		Doc: "where the grpc-timeout header is non-empty the handler context's chain contains context.WithTimeout(_, d) with d = result of decodeTimeout of that header value; on every path from the decoded header to the handler invocation (a legal zero timeout included)",
 		Run: ruleTimeoutApplied})
 	register(&Rule{Name: "TIMEOUT-REFUSED", Floor: 1,
 		Doc: "no path from the error edge of decodeTimeout reaches the handler invocation (a malformed timeout is refused before the handler can run)",
